@@ -703,6 +703,7 @@ Print Assumptions C01_parsed_number_literal_valid.
             every value computed is a valid binary64 hereditarily.  No TGlueFuel hypothesis is needed: the Pratt model's
             fuel exhaustion is shown as Unmodelled, not Panic. ---- *)
 Require Blots.Peg Blots.gen.Grammar Blots.Pratt Blots.proofs.TextValidPratt Blots.proofs.TextValid.
+Require Blots.proofs.TextValidNoGlue Blots.proofs.TextValidStreams.
 Module TextValidLayer.
 Import Blots.Pratt Blots.TextRun Blots.proofs.TextValidPratt Blots.proofs.TextValid.
 
@@ -782,6 +783,45 @@ Proof.
   exact (C01_text_run_no_panic_all oracle_trivial oracle_trivial_valid oracle_trivial_display_safe release
            pf2_sample_inputs pf2_sample_text l Hi Hp Hg).
 Qed.
+
+(* ---- the glue-panic hypothesis: (1) the Pratt half is PROVED — pest's loop + the closures of pairs_to_expr_inner never reach a
+        panic arm on a DEEPLY ALTERNATING stream (operand (infix operand)..., operand = prefix.. primary postfix.., nested streams
+        too), for ANY table / maps / fuel; (2) so the hypothesis reduces to a DECIDABLE shape predicate of the PEG output,
+        text_streams_ok (computable: Example below runs it by vm_compute on the real grammar); (3) that the grammar produces
+        only such forests is kept as a Definition, NOT proved. ---- *)
+Import Blots.proofs.TextValidNoGlue Blots.proofs.TextValidStreams.
+
+Theorem C01_pratt_no_panic_on_alternating_streams : forall tbl imap pmap fuel its,
+  stream_ok tbl imap pmap its = true -> parse_items tbl imap pmap fuel its <> Panic.
+Proof. exact parse_items_no_panic. Qed.
+Check C01_pratt_no_panic_on_alternating_streams : forall tbl imap pmap fuel its,
+  stream_ok tbl imap pmap its = true -> parse_items tbl imap pmap fuel its <> Panic.
+Print Assumptions C01_pratt_no_panic_on_alternating_streams.
+
+Theorem C01_text_no_glue_panic_of_streams : forall text l,
+  parse_text_stmts text = TIOk l -> text_streams_ok text = true -> Forall (fun t => t <> TGluePanic) l.
+Proof. exact text_no_glue_panic. Qed.
+Check C01_text_no_glue_panic_of_streams : forall text l,
+  parse_text_stmts text = TIOk l -> text_streams_ok text = true -> Forall (fun t => t <> TGluePanic) l.
+Print Assumptions C01_text_no_glue_panic_of_streams.
+
+Theorem C01_text_run_no_panic_streams : forall o, oracle_valid o -> oracle_display_safe o ->
+  forall release inputs text l, valid_inputs inputs ->
+  parse_text_stmts text = TIOk l -> text_streams_ok text = true ->
+  exists sr, run_text_res (eval_top release (binop_all o) (builtin_all_fit o)) inputs text = TRun sr
+             /\ Forall (fun rs => fst rs <> RFail Panic /\ valid_resultb (fst rs) = true) (snd sr).
+Proof. exact text_run_no_panic_streams. Qed.
+Check C01_text_run_no_panic_streams : forall o, oracle_valid o -> oracle_display_safe o ->
+  forall release inputs text l, valid_inputs inputs ->
+  parse_text_stmts text = TIOk l -> text_streams_ok text = true ->
+  exists sr, run_text_res (eval_top release (binop_all o) (builtin_all_fit o)) inputs text = TRun sr
+             /\ Forall (fun rs => fst rs <> RFail Panic /\ valid_resultb (fst rs) = true) (snd sr).
+Print Assumptions C01_text_run_no_panic_streams.
+
+(* NOT proved: the grammar only produces deeply alternating statement streams (then the three theorems above hold of EVERY text) *)
+Definition C01_text_streams_ok_full : Prop := forall text, text_streams_ok text = true.
+Example C01_text_streams_ok_sample : text_streams_ok pf2_sample_text = true.
+Proof. vm_compute. reflexivity. Qed.
 End TextValidLayer.
 (* the callback hypothesis `vcb` of the per-call theorems is inhabited: FunctionDef::call itself, at any depth *)
 Example C01_vcb_inhabited : vcb (AD true (binop_all oracle_trivial) (builtin_all_fit oracle_trivial) 3 []).
